@@ -24,9 +24,11 @@ SHAPES = ["accept", "reject", "before-user", "after-login", "anonymous-then-pass
           # the PASS line is cut off: its bytes arrive without the line end and the connection ends
           "eof-after-pass", "eof-after-right-pass",
           # a peer that ends its lines with a bare LF (`printf 'USER bob\nPASS pw\nQUIT\n' | nc`), or mixes line ends
-          "lf-only", "lf-only-eof", "mixed-line-ends", "lf-only-right"]
+          "lf-only", "lf-only-eof", "mixed-line-ends", "lf-only-right",
+          # after an accepted login: commands that the account's permission rules refuse
+          "accept-then-denied"]
 ACCEPTING = ("accept", "retry", "accept-then-work", "accept-relogin", "two-sessions-quit-relogin", "two-sessions-drop-relogin",
-             "eof-after-right-pass", "lf-only-right")
+             "eof-after-right-pass", "lf-only-right", "accept-then-denied")
 SPELL = ["PASS", "pass", "PaSs"]
 # spellings that are not PASS under str.lower() but are under other case mappings (casefold, upper): if the server
 # takes one of them for PASS its argument is a password and must not be logged; if it answers 502 it is not a password
@@ -60,7 +62,9 @@ def reference(p):
 
 
 def users(a, base, table_pw):
-    return [a.User("bob", table_pw, base_path=base), a.User(base_path=base)]
+    # (bob's account has permission rules: what is refused by a rule is logged like everything else)
+    perms = [a.Permission("/ro", writable=False), a.Permission("/hidden", readable=False, writable=False)]
+    return [a.User("bob", table_pw, base_path=base, permissions=perms), a.User(base_path=base)]
 
 
 def scenario(shape, spelling, p, via_client):
@@ -86,7 +90,7 @@ def scenario(shape, spelling, p, via_client):
         return TimedManager(table)
 
     with logcap.capture() as cap:
-        rig = Rig(tree={"f": b"x"}, users=user_table, n_sessions=2,
+        rig = Rig(tree={"f": b"x", "ro": {"f": b"y"}, "hidden": {"h": b"z"}}, users=user_table, n_sessions=2,
                   server_kwargs={"wait_future_timeout": 1})
         try:
             w = rig.world
@@ -136,6 +140,8 @@ def scenario(shape, spelling, p, via_client):
                     "eof-after-right-pass": ["USER bob", ("@eof", line)],
                     "two-sessions-drop-relogin": ["USER bob", line, (1, "@connect"), (1, "USER bob"), (1, line),
                                                   "USER bob", (1, "@drop"), line, "PWD", "USER bob", line],
+                    "accept-then-denied": ["USER bob", line, "MKD /ro/x", "DELE /ro/f", "CWD /hidden", "MLST /hidden/h", "RNFR /ro/f",
+                                           "EPSV", "@data", "STOR /ro/up", "LIST /hidden", "RMD /hidden", "PWD"],
                     "lf-only": [("@raw", b"USER bob\n"), ("@raw", b"%PASS%\n"), ("@raw", b"PWD\n")],
                     "lf-only-right": [("@raw", b"USER bob\n%PASS%\nPWD\n")],
                     "lf-only-eof": [("@raw+eof", b"USER bob\n%PASS%\nQUIT\n")],
